@@ -27,12 +27,19 @@ FormsOf(code) == (IF code \in Registered THEN {"int", "line", "enum", "xline"} E
 
 (* stream options <<kind, block lengths>> *)
 (* 0 = an empty block (not for file-likes: there it is the end), -1 = None (ASGI only, see MCInit) *)
+(* the kind of object: iterator / iterable that is not its own iterator / file-like with short blocks (several
+   non-empty short blocks before the end) / file-like honouring the size (data of exactly one block, of a block and
+   a bit, segments that straddle a block boundary, nothing at all) / without close() *)
+NewKinds     == {"iterable", "filefull"}
 QuickStreams == {<<"none", <<>>>>, <<"iter", <<5, 6>>>>, <<"iter", <<0, 5>>>>, <<"iter", <<5, -1, 6>>>>,
-                 <<"file", <<5>>>>, <<"file", <<>>>>, <<"file", <<-1, 5, -1>>>>, <<"plain", <<5>>>>, <<"plain", <<-1, 5>>>>}
+                 <<"file", <<5>>>>, <<"file", <<>>>>, <<"file", <<-1, 5, -1>>>>, <<"plain", <<5>>>>, <<"plain", <<-1, 5>>>>,
+                 <<"iterable", <<5, 6>>>>, <<"file", <<5, 6, 7>>>>, <<"filefull", <<5000, 5000>>>>, <<"filefull", <<8192>>>>}
 FullStreams  == {<<"none", <<>>>>}
-                \cup ({"iter", "file", "plain"} \X {<<>>, <<5>>, <<5, 6>>, <<6, 5, 7>>, <<-1, 5>>, <<5, -1, 6>>, <<5, -1>>})
-                \cup ({"iter", "plain"} \X {<<0, 5>>, <<5, 0>>})
-TinyStreams  == {<<"none", <<>>>>, <<"iter", <<5>>>>}
+                \cup ({"iter", "iterable", "file", "plain"} \X {<<>>, <<5>>, <<5, 6>>, <<6, 5, 7>>, <<-1, 5>>, <<5, -1, 6>>, <<5, -1>>})
+                \cup ({"iter", "iterable", "plain"} \X {<<0, 5>>, <<5, 0>>})
+                \cup ({"filefull"} \X {<<>>, <<5>>, <<8192>>, <<8197>>, <<5000, 5000>>, <<16384, 5>>, <<3000, 6000, 9000>>})
+TinyStreams  == {<<"none", <<>>>>, <<"iter", <<5>>>>, <<"iterable", <<5>>>>, <<"file", <<5, 6>>>>, <<"filefull", <<5000, 5000>>>>}
+SwitchOn     == TRUE             \* for `Op <- SwitchOn` in the wrong-design configurations
 Streams == CASE Tier = "quick" -> QuickStreams [] Tier = "tiny" -> TinyStreams [] OTHER -> FullStreams
 
 Case(iface, code, form, method, text, data, media, st, sse, cl, ct, fk, fa) ==
@@ -43,9 +50,9 @@ Case(iface, code, form, method, text, data, media, st, sse, cl, ct, fk, fa) ==
 NSends(b) ==
     1 + (IF IsAsgi(b)
          THEN (IF Bodiless(b) THEN 1
-               ELSE CASE Chosen(b) = "sse" -> b.sse + 1 [] Chosen(b) = "stream" -> Len(LiveChunks(b)) + 1 [] OTHER -> 1)
+               ELSE CASE Chosen(b) = "sse" -> b.sse + 1 [] Chosen(b) = "stream" -> Len(Blocks(b)) + 1 [] OTHER -> 1)
          ELSE (IF Bodiless(b) THEN 0
-               ELSE CASE Chosen(b) = "stream" -> Len(LiveChunks(b)) [] Chosen(b) = "none" -> 0 [] OTHER -> 1))
+               ELSE CASE Chosen(b) = "stream" -> Len(Blocks(b)) [] Chosen(b) = "none" -> 0 [] OTHER -> 1))
 (* faults do not interact with how the status was written or with preset headers: fault points are
    explored for the plain-header, int-status cases only *)
 FaultBase(b) == b.form = "int" /\ b.cl = -1 /\ ~b.ct
@@ -58,7 +65,7 @@ RenderBase(b) == b.form = "int" /\ (Tier = "quick" => b.code \in {200, 204})
 FaultsOf(b) ==
     {<<"none", 0>>}
     \cup (IF ~Bodiless(b) /\ Streamed(b)
-          THEN {<<"stream", j>> : j \in 0..(IF Chosen(b) = "sse" THEN b.sse ELSE Len(LiveChunks(b)))} ELSE {})
+          THEN {<<"stream", j>> : j \in 0..(IF Chosen(b) = "sse" THEN b.sse ELSE Len(Blocks(b)))} ELSE {})
     \cup {<<"send", j>> : j \in (IF IsAsgi(b) THEN 0 ELSE 1)..(NSends(b) - 1)}
     \cup (IF ~Bodiless(b) /\ Chosen(b) = "sse" THEN {<<"disc", j>> : j \in 0..b.sse} ELSE {})     \* client disconnects
 
@@ -77,7 +84,9 @@ MCInit ==
            /\ (sse # NoSse /\ st[1] # "none") => sse = <<1, 0, 0, 1>>
            /\ (sse \notin {NoSse, <<1, 1>>, <<1, 0, 0, 1>>}) => data = -1
            /\ (Tier = "quick" /\ sse # NoSse) => st[1] = "none"          \* quick tier: thinner cross product
-           /\ (Tier = "quick" /\ iface = "wsgifw") => st[1] = "file"
+           /\ (Tier = "quick" /\ iface = "wsgifw") => st[1] \in {"file", "filefull", "iterable"}
+           \* the new object kinds do not interact with how the status was written or with preset headers
+           /\ (st[1] \in NewKinds \/ st = <<"file", <<5, 6, 7>>>>) => (form = "int" /\ cl = -1 /\ ~ct /\ (Tier = "quick" => data = -1))
            /\ \E f \in (IF FaultBase(b) THEN FaultsOf(b) ELSE {<<"none", 0>>})
                         \cup (IF RenderBase(b) THEN {<<"render", 1>>, <<"render", 2>>} ELSE {}) : Start([b EXCEPT !.fk = f[1], !.fa = f[2]])
 
@@ -93,5 +102,6 @@ Emit == (pc = "done") =>
                    sl |-> IF Starts(ev) > 0 THEN StartOf(ev).sl ELSE TRUE,
                    begun |-> begun, closes |-> closes, raised |-> raised, sendFailed |-> sendFailed,
                    chosen |-> Chosen(c), bodiless |-> Bodiless(c), typeless |-> Typeless(c),
-                   lenreq |-> LengthRequired(c), precreq |-> ~RenderFaulted(c), full |-> ExpectedPieces(c)]))
+                   lenreq |-> LengthRequired(c), precreq |-> ~RenderFaulted(c), full |-> ExpectedPieces(c),
+                   hasclose |-> HasClose(c0), pieces |-> ObsPieces(c, ev)]))
 =================================================================================
